@@ -457,6 +457,54 @@ def string_substr(i, j, **kw):
     return 'ok'
 
 
+def _split_ref(s, d):
+    """Components of s between occurrences of the one-character delimiter d (written out, not str.split)."""
+    parts, cur = [], ''
+    for ch in s:
+        if ch == d:
+            parts.append(cur)
+            cur = ''
+        else:
+            cur += ch
+    parts.append(cur)
+    return parts
+
+
+@cond('C18.string.splitcomp', quick=300, thorough=900,
+      bounds='strings of length <= 3 over {a, A, :}; delimiter ":" or "a"; index symbolic over every valid position, negative ones '
+             'included (-n..n-1 for n components): splitcomp(s, d, i) is the i-th component',
+      symbolic='the string, the index', enumerated='delimiter', params={**STR.params('s'), 'i': int, 'da': bool}, group='C18.string')
+def string_splitcomp(i, da, **kw):
+    s = STR.build('s', kw)
+    d = 'a' if da else ':'
+    parts = _split_ref(s, d)
+    assume(-len(parts) <= i < len(parts))
+    if call('splitcomp', s, d, i) != parts[i]:
+        return 'splitcomp'
+    if i < 0:
+        cover('negative-index')
+    return 'ok'
+
+
+SPLIT_STRINGS = ['', ':', 'a', 'a:b', 'Assets:Bank:Checking', '::', 'a::b:', ':x']
+
+
+@cond('C18.string.splitcomp-enumerated', quick=120,
+      bounds=f'splitcomp(s, ":", i) for s in {SPLIT_STRINGS} and every valid index i (negative included); agrees with leaf() / '
+             'root(.., 1) on account names',
+      symbolic='(none)', enumerated='string, index', params={'k': int, 'i': int}, group='C18.string')
+def splitcomp_enumerated(k, i):
+    s = pick(SPLIT_STRINGS, k)
+    parts = _split_ref(s, ':')
+    i = enum_int(i, -4, 3)
+    assume(-len(parts) <= i < len(parts))
+    if native(call, 'splitcomp', s, ':', i) != parts[i]:
+        return 'splitcomp'
+    if s == 'Assets:Bank:Checking' and i == -1 and native(call, 'leaf', s) != parts[i]:
+        return 'leaf-disagrees'
+    return 'ok'
+
+
 SUBSTR_STRINGS = ['', 'a', 'ab', 'abc', 'abcdef']
 
 
